@@ -72,7 +72,7 @@ var c10Letters = []encLetter{
 	{name: "StartPath(71,1,2)", call: mcall(rec.Call{M: rec.MStartPath, Adj: 71, A: [6]float32{1, 2}}), class: kStartBad},
 	{name: "SetCReg(130,false,rgba)", call: mcall(rec.Call{M: rec.MSetCReg, Adj: 130, C: c10Col}), class: kStylingBadAdj},
 	{name: "SetNReg(64,false,1.25)", call: mcall(rec.Call{M: rec.MSetNReg, Adj: 64, A: [6]float32{1.25}}), class: kStylingBadAdj},
-	{name: "AbsLineTo(3,4.5)", call: mcall(rec.Call{M: rec.MAbsL, A: [6]float32{3, 4.5}}), class: kDraw},
+	{name: "AbsLineTo(127.995,4.5)", call: mcall(rec.Call{M: rec.MAbsL, A: [6]float32{127.995, 4.5}}), class: kDraw}, // rounds to 128 at low resolution: outside the 2-byte range
 	{name: "RelArcTo", call: mcall(rec.Call{M: rec.MRelA, LA: true, A: [6]float32{5, 6, 0.25, 7, 8}}), class: kDraw},
 	{name: "AbsHLineTo(-9.003)", call: mcall(rec.Call{M: rec.MAbsH, A: [6]float32{-9.003}}), class: kDraw}, // not a multiple of 1/64
 	{name: "ClosePathAbsMoveTo(10,11)", call: mcall(rec.Call{M: rec.MAbsMove, A: [6]float32{10, 11}}), class: kDraw},
@@ -135,13 +135,21 @@ type c10Case struct {
 	Init    int    `json:"init"`
 	Letters []int  `json:"letters"`
 	Names   string `json:"history,omitempty"`
-	Sweep   []int  `json:"sweep,omitempty"` // method (0 StartPath, 1 SetCReg, 2 SetNReg, 3 SetCSel, 4 SetNSel), argument, incr, initial object
+	Sweep   []int  `json:"sweep,omitempty"` // method (0 StartPath, 1 SetCReg, 2 SetNReg, 3 SetCSel, 4 SetNSel; 5.. run of `argument` identical l / H / q calls), argument, incr, initial object
 }
 
 // c10Sweep: every value of the uint8 argument of the calls that take one, from the zero
 // value and after Reset: an adjustment above 6 (or an increment with a non-zero
 // adjustment) is an error, everything else decodes to the call; selectors count modulo 64.
 func c10Sweep(w *mc.W) {
+	// runs of n identical drawing calls, n around the multiples of 256
+	for init := 0; init < 2; init++ {
+		for verb := 0; verb < 3; verb++ {
+			for _, n := range []int{254, 255, 256, 257, 258, 511, 512, 513, 1024, 1025} {
+				c10SweepOne(w, 5+verb, n, 0, init)
+			}
+		}
+	}
 	for init := 0; init < 2; init++ {
 		for m := 0; m < 5; m++ {
 			for v := 0; v < 256; v++ {
@@ -184,6 +192,40 @@ func c10SweepOne(w *mc.W, m, v, incr, init int) {
 		name = fmt.Sprintf("SetNSel(%d)", v)
 		e.SetNSel(uint8(v))
 		want = rec.Call{M: rec.MSetNSel, Adj: uint8(v & 63)}
+	}
+	if m >= 5 {
+		// a run of v identical drawing calls decodes to v calls
+		c := []rec.Call{{M: rec.MRelL, A: [6]float32{1, -2}}, {M: rec.MAbsH, A: [6]float32{5}}, {M: rec.MRelQ, A: [6]float32{1, 2, 3, 4}}}[m-5]
+		name = fmt.Sprintf("StartPath; %d x %s; ClosePathEndPath", v, c.String())
+		cs := c10Case{Init: init, Sweep: []int{m, v, incr, init}, Names: c10Inits[init] + ": " + name}
+		e.StartPath(0, 0, 0)
+		for i := 0; i < v; i++ {
+			c.Apply(e)
+		}
+		e.ClosePathEndPath()
+		b, err := e.Bytes()
+		if err != nil {
+			w.Fail("spurious-error:sweep", fmt.Sprintf("[%s] respects the protocol but Bytes() reports %v", name, err), cs)
+			return
+		}
+		var rd rec.Dest
+		if derr := decode.Decode(&rd, b); derr != nil {
+			w.Fail("accepted-history-undecodable", fmt.Sprintf("[%s]: Decode fails: %v", name, derr), cs)
+			return
+		}
+		ok := len(rd.Calls) == v+3
+		for i := 0; ok && i < v; i++ {
+			ok = rd.Calls[2+i].Equal(&c)
+		}
+		if !ok {
+			w.Fail("decodes-differently:sweep-run", fmt.Sprintf("[%s]: the stream (%d bytes) decodes to %d calls, expected %d", name, len(b), len(rd.Calls), v+3), cs)
+			return
+		}
+		h := mc.NewHasher()
+		h.Str("sweep-run")
+		h.Byte(byte(m))
+		w.Outcome(h.Sum(), true)
+		return
 	}
 	cs := c10Case{Init: init, Sweep: []int{m, v, incr, init}, Names: c10Inits[init] + ": " + name}
 	b, err := e.Bytes()
@@ -243,8 +285,8 @@ func init() {
 	mc.Register(&mc.Check{
 		ID:    "C10",
 		Level: "model_checking",
-		Rule: "engine S: all histories of <=5 (thorough <=6; from the zero value also every history of 7 calls whose last five come from a 21-letter core alphabet) calls over a 29-letter alphabet of call classes (Bytes, CSel, NSel, LOD, SetCSel, SetNSel, SetCReg/SetNReg {ok, ok-incr, ADJ=7, incr with ADJ=1}, SetLOD, StartPath {ok, ADJ=7, ADJ=71}, SetCReg ADJ=130, SetNReg ADJ=64, L, A, H, Y, Z, Reset {default, custom}) from 3 initial objects (zero value, Reset(default), after an error), " +
-			"plus every value 0..255 of the uint8 argument of StartPath, SetCReg, SetNReg (with and without increment), SetCSel, SetNSel; " +
+		Rule: "engine S: all histories of <=5 (thorough <=6; from the zero value also every history of 7 calls whose last five come from a 21-letter core alphabet) calls over a 29-letter alphabet of call classes (Bytes, CSel, NSel, LOD, SetCSel, SetNSel, SetCReg/SetNReg {ok, ok-incr, ADJ=7, incr with ADJ=1}, SetLOD, StartPath {ok, ADJ=7, ADJ=71}, SetCReg ADJ=130, SetNReg ADJ=64, L (x = 127.995, which rounds to 128), A, H, Y, Z, Reset {default, custom}) from 3 initial objects (zero value, Reset(default), after an error), " +
+			"plus every value 0..255 of the uint8 argument of StartPath, SetCReg, SetNReg (with and without increment), SetCSel, SetNSel, and runs of 254..1025 identical drawing calls; " +
 			"each executed on a real Encoder in lock step with the 3-state specification automaton; then breadth-first search to depth 12 (thorough 16) over canonical private states (reflective dump minus write-only buffers). " +
 			"In every state: Bytes errs iff the automaton is in error, the error value is the first one and sticky, Bytes twice equal, closed error-free histories decode to exactly the calls since the last Reset, zero-value and Reset(default) objects agree on bytes, errors and read-backs. " +
 			"states = distinct canonical Encoder states seen, transitions = calls executed in the BFS, evaluations = histories judged; non-trivial = history reaches the error state or contains a closed path",
